@@ -3,11 +3,12 @@ From KV Require Import Model.Base Model.Request Spec.RequestSpec Proofs.C07Proof
 Local Open Scope list_scope.
 
 (* for every scheme declaration / callback outcome, every option set, every operation (security
-   lists, parameter lists and body of any shape): under the two named guards the model of
-   ValidateRequest returns no error iff the property's conditions hold *)
+   lists, parameter lists and body of any shape) the model of ValidateRequest returns no error iff
+   the property's conditions hold.  No guard is left: the two defects the earlier statement excluded
+   (path-level query parameters under ExcludeRequestQueryParams, the empty requirement without a
+   callback) were repaired in /repo.  [callback_meaning]: without a callback nothing is accepted. *)
 Theorem C07_request_iff :
-  forall declared auth o op,
-    g_no_path_query o op = true -> g_auth_configured o op = true ->
+  forall declared auth o op, callback_meaning auth o ->
     (validate_request declared auth o op = None <-> request_spec declared auth o op = true).
 Proof. exact request_iff. Qed.
 Print Assumptions C07_request_iff.
@@ -31,7 +32,7 @@ Proof. exact first_only. Qed.
    document-level one; the callback is asked only about declared schemes, and exactly the schemes
    of a requirement it satisfies *)
 Theorem C07_security_spec :
-  forall declared auth o rs, (o_has_auth o = true \/ rs = []) ->
+  forall declared auth o rs, callback_meaning auth o ->
     fst (security_ok declared auth o rs) = sec_spec declared auth rs.
 Proof. exact security_ok_spec. Qed.
 Theorem C07_calls_declared :
@@ -43,26 +44,26 @@ Theorem C07_satisfied_requirement_calls :
 Proof. exact schemes_ok_calls_all. Qed.
 Print Assumptions C07_security_spec.
 
-(* refuted witnesses for the two guards *)
+(* the two former refuted witnesses, now on the side of the property *)
 Definition opx (sec : option (list requirement)) (pp : list param) : operation :=
   mkOp sec [] [] pp false true.
-Theorem C07_refuted_path_level_query :
+Example C07_path_level_query_excluded :
   let o := mkROpts false false true true in
   let op := opx None [mkParam LQuery "q" false] in
-  validate_request (fun _ => true) (fun _ => true) o op <> None /\
+  validate_request (fun _ => true) (fun _ => true) o op = None /\
   request_spec (fun _ => true) (fun _ => true) o op = true.
-Proof. vm_compute. split; [discriminate|reflexivity]. Qed.
-Theorem C07_refuted_empty_requirement_without_callback :
+Proof. vm_compute. split; reflexivity. Qed.
+Example C07_empty_requirement_without_callback_passes :
   let o := mkROpts false false false false in
-  let op := opx (Some [[]]) [] in
-  validate_request (fun _ => true) (fun _ => true) o op <> None /\
-  request_spec (fun _ => true) (fun _ => true) o op = true.
-Proof. vm_compute. split; [discriminate|reflexivity]. Qed.
+  let op := opx (Some [[]; ["s"]]) [] in
+  validate_request (fun _ => true) (fun _ => false) o op = None /\
+  request_spec (fun _ => true) (fun _ => false) o op = true.
+Proof. vm_compute. split; reflexivity. Qed.
 
 Example C07_hyps_satisfiable :
   let o := mkROpts true false true true in
   let op := mkOp (Some [["a"; "b"]; []]) [["z"]] [mkParam LQuery "q" false; mkParam LHeader "h" true]
                  [mkParam LHeader "h" false; mkParam LPath "id" true] true false in
-  g_no_path_query o op = true /\ g_auth_configured o op = true /\
+  callback_meaning (fun n => String.eqb n "a") o /\
   validate_request (fun _ => true) (fun n => String.eqb n "a") o op = Some [PBody].
-Proof. vm_compute. repeat split. Qed.
+Proof. split; [intros H; discriminate H|vm_compute; reflexivity]. Qed.
